@@ -10,6 +10,11 @@ import (
 	"strings"
 	"testing"
 
+	"go.opentelemetry.io/collector/pdata/pcommon"
+	"go.opentelemetry.io/collector/pdata/plog"
+	"go.opentelemetry.io/collector/pdata/pmetric"
+	"go.opentelemetry.io/collector/pdata/ptrace"
+
 	"verif/common/canon"
 	"verif/common/gen"
 	"verif/common/vc"
@@ -206,18 +211,22 @@ func runRoundTrip(t *testing.T, prop string, sig canon.Signal) {
 	})
 	// batches close to the protocol's id width: 32,768 / 45,000 / 65,535 attribute-bearing items are inside
 	// the domain (<= 65,535 parents per table) and must round-trip, as the first batch of a stream (schema
-	// updates force the record to be built several times) and again as a second batch with fresh values
+	// updates force the record to be built several times), and again after a small batch that brings new
+	// optional columns. The items are lean (one or two attributes each) to keep a child's memory bounded.
 	r.Layer("near-limit", e.Pick(3, 9), func(c *vc.Case) {
 		n := []int{32768, 45000, 65535}[c.Idx%3]
-		h := RampHistory(c.R, sig, 2, n, (c.Idx/3)%2 == 1)
-		h.Script = fmt.Sprintf("near-limit(%d items per batch)", n)
+		variant := c.Idx / 3
+		g := gen.New(c.R, gen.DValid)
+		g.Carve = carve
+		h := &History{Script: fmt.Sprintf("near-limit(%d items, variant %d)", n, variant)}
+		h.Batches = []Batch{leanBig(sig, n, 0, variant), genBatch(g, sig, 8), leanBig(sig, n, 1, variant)}
 		o := DefaultOpts()
-		if c.Idx >= 3 {
+		if variant > 0 {
 			o = RandomOpts(c.R)
 			o.Limit = []string{"default", "16", "32"}[c.R.IntN(3)]
 		}
 		roundTripHistory(c, h, o, prop)
-		c.Count("near_limit_batches", int64(h.Len()))
+		c.Count("near_limit_batches", 2)
 		c.Sample(map[string]any{"script": h.Script, "options": o.String()})
 	})
 	// long streams: hundreds of batches through one producer/consumer pair. Values come from small pools,
@@ -244,6 +253,61 @@ func runRoundTrip(t *testing.T, prop string, sig canon.Signal) {
 		h := GenHistory(c.R, g, []canon.Signal{sig}, 3, e.Pick(400, 2000))
 		roundTripHistory(c, h, DefaultOpts(), prop)
 	})
+}
+
+// leanBig builds a batch of n attribute-bearing items with little else: every item is a parent in an
+// attribute table (the quantity the protocol's 16-bit ids bound). round selects fresh values, variant the
+// shape of the attributes.
+func leanBig(sig canon.Signal, n, round, variant int) Batch {
+	put := func(m pcommon.Map, i int) {
+		switch variant % 3 {
+		case 0:
+			m.PutInt("i", int64(i%7+round))
+		case 1:
+			m.PutStr("k", fmt.Sprintf("v%d", i%500+round*500))
+		default:
+			m.PutInt("i", int64(i))
+			m.PutBool("b", i%2 == round)
+		}
+	}
+	switch sig {
+	case canon.Traces:
+		td := ptrace.NewTraces()
+		ss := td.ResourceSpans().AppendEmpty().ScopeSpans().AppendEmpty()
+		ss.Spans().EnsureCapacity(n)
+		for i := 0; i < n; i++ {
+			sp := ss.Spans().AppendEmpty()
+			sp.SetName("op")
+			sp.SetSpanID(pcommon.SpanID{byte(i), byte(i >> 8), byte(i >> 16), byte(round + 1)})
+			put(sp.Attributes(), i)
+		}
+		return TB(td)
+	case canon.Logs:
+		ld := plog.NewLogs()
+		sl := ld.ResourceLogs().AppendEmpty().ScopeLogs().AppendEmpty()
+		sl.LogRecords().EnsureCapacity(n)
+		for i := 0; i < n; i++ {
+			lr := sl.LogRecords().AppendEmpty()
+			lr.SetTimestamp(pcommon.Timestamp(1_700_000_000_000_000_000 + uint64(i)))
+			lr.Body().SetInt(int64(i))
+			put(lr.Attributes(), i)
+		}
+		return LB(ld)
+	default:
+		// n metrics of one attribute-bearing data point each: the metric id is the 16-bit one
+		md := pmetric.NewMetrics()
+		sm := md.ResourceMetrics().AppendEmpty().ScopeMetrics().AppendEmpty()
+		sm.Metrics().EnsureCapacity(n)
+		for i := 0; i < n; i++ {
+			m := sm.Metrics().AppendEmpty()
+			m.SetName("g")
+			dp := m.SetEmptyGauge().DataPoints().AppendEmpty()
+			dp.SetIntValue(int64(i))
+			dp.SetTimestamp(pcommon.Timestamp(1_700_000_000_000_000_000 + uint64(i)))
+			put(dp.Attributes(), i)
+		}
+		return MB(md)
+	}
 }
 
 func TestC01(t *testing.T) { runRoundTrip(t, "C01", canon.Traces) }
